@@ -29,7 +29,11 @@ import typing as T
 VERIF = os.path.dirname(os.path.dirname(os.path.abspath(__file__)))
 REPO = os.environ.get('VERIF_REPO', '/repo')
 LEAN = os.path.join(VERIF, 'lean')
-DRIVER = os.path.join(LEAN, '.lake', 'build', 'bin', 'mvdriver')
+BIN = os.path.join(LEAN, '.lake', 'build', 'bin')
+
+
+def driver_path(area: str) -> str:
+    return os.path.join(BIN, 'mvdriver-' + area)
 WORK = os.path.join(VERIF, '.work')
 ALLOWED_AXIOMS = {'propext', 'Classical.choice', 'Quot.sound'}
 HYGIENE_RE = re.compile(r'\bsorry\b|\badmit\b|^\s*axiom\s|native_decide|bv_decide|implemented_by|\bunsafe\s|maxHeartbeats\s+0\b')
@@ -76,12 +80,14 @@ def _lake(args: T.List[str], timeout: int = 3000) -> subprocess.CompletedProcess
             fcntl.flock(lk, fcntl.LOCK_UN)
 
 
+def build_driver(areas: T.List[str]) -> T.Tuple[bool, str]:
+    """Build the model driver executable(s); they only contain models (and generated tables)."""
+    p = _lake(['build'] + ['mvdriver-' + a for a in areas])
+    return p.returncode == 0, p.stdout
+
+
 def lean_build(targets: T.List[str]) -> T.Tuple[bool, str]:
-    """Build the driver (must succeed) and the property's theorem modules (may fail: an obligation)."""
-    p = _lake(['build', 'mvdriver'])
-    if p.returncode != 0:
-        # the driver only contains models; a failure here can still be caused by a regenerated table
-        return False, p.stdout
+    """Kernel re-check of the property's theorem modules (a failure is a failed obligation)."""
     p = _lake(['build'] + targets)
     return p.returncode == 0, p.stdout
 
@@ -181,10 +187,11 @@ def audit_axioms(prop_id: str, modules: T.List[str]) -> T.Dict[str, T.List[str]]
     return res
 
 
-def run_driver(lines: T.Sequence[str], chunk: int = 200000) -> T.List[str]:
-    """Feed protocol lines to the native model driver, return one answer per line."""
+def run_driver(area: str, lines: T.Sequence[str], chunk: int = 200000) -> T.List[str]:
+    """Feed protocol lines to the native model driver of `area`, return one answer per line."""
+    DRIVER = driver_path(area)
     if not os.path.exists(DRIVER):
-        raise ToolFailure('driver not built')
+        raise ToolFailure('driver not built: ' + DRIVER)
     out: T.List[str] = []
     for i in range(0, len(lines), chunk):
         part = lines[i:i + chunk]
@@ -294,6 +301,7 @@ class Ctx:
         self.deep = tier == 'thorough'
         self._replay_n = 0
         self.exhaustive = False
+        self.model_available = True
 
     # sizing: quick unless thorough tier or a pinned source changed
     def scale(self, quick: int, thorough: int) -> int:
@@ -313,8 +321,9 @@ class Ctx:
         if len(self.samples) < limit:
             self.samples.append(case)
 
-    def driver(self, lines: T.Sequence[str]) -> T.List[str]:
-        return run_driver(lines)
+    def driver(self, area: str, lines: T.Sequence[str]) -> T.List[str]:
+        """one answer line per request line from the native Lean model driver `mvdriver-<area>`"""
+        return run_driver(area, lines)
 
     def write_replay(self, obj: dict) -> str:
         self._replay_n += 1
@@ -334,7 +343,9 @@ class Ctx:
         if key in self.known:
             self.known_hits[key] = self.known[key]
             return
-        if len(self.violations) < 20:
+        if key in [v['key'] for v in self.violations]:
+            return
+        if len(self.violations) < 5:
             self.violations.append({'key': key, 'what': what, 'case': case})
 
     def obligation_failed(self, name: str, detail: str = '') -> None:
